@@ -73,13 +73,19 @@ theorem der_dec_seq (root : Members) (e : Bool) (adds : Members) (tg : Option Na
             simp only []
             split
             · rfl
-            · cases retry (gPass dec adds root.length fuel) (adds.length + 1)
-                  (List.replicate adds.length none) c1 with
-              | error e => rfl
-              | ok z =>
-                obtain ⟨slots2, c2, ood2⟩ := z
-                simp only []
-                cases fill adds slots2 true <;> rfl
+            · cases ood1 with
+              | true =>
+                simp only [if_true]
+                cases fill adds (List.replicate adds.length none) true <;> rfl
+              | false =>
+                simp only [Bool.false_eq_true, if_false]
+                cases retry (gPass dec adds root.length fuel) (adds.length + 1)
+                    (List.replicate adds.length none) c1 with
+                | error e => rfl
+                | ok z =>
+                  obtain ⟨slots2, c2, ood2⟩ := z
+                  simp only []
+                  cases fill adds slots2 true <;> rfl
 
 end Asn1.Der
 
@@ -284,13 +290,19 @@ theorem ber_dec_seq (root : Members) (e : Bool) (adds : Members) (tg : Option Na
             simp only []
             split
             · rfl
-            · cases retry (gPass dec adds root.length fuel) (adds.length + 1)
-                  (List.replicate adds.length none) c1 with
-              | error e => rfl
-              | ok z =>
-                obtain ⟨slots2, c2, ood2⟩ := z
-                simp only []
-                cases fill adds slots2 true <;> rfl
+            · cases ood1 with
+              | true =>
+                simp only [if_true]
+                cases fill adds (List.replicate adds.length none) true <;> rfl
+              | false =>
+                simp only [Bool.false_eq_true, if_false]
+                cases retry (gPass dec adds root.length fuel) (adds.length + 1)
+                    (List.replicate adds.length none) c1 with
+                | error e => rfl
+                | ok z =>
+                  obtain ⟨slots2, c2, ood2⟩ := z
+                  simp only []
+                  cases fill adds slots2 true <;> rfl
 
 theorem ber_decAlt_eq (as : Alts) (i : Nat) (tag : Bytes) (fuel : Nat) (bs : Bytes) :
     BerCodec.decAlt as i tag fuel bs = Der.gAlt BerCodec.dec berTest as i tag fuel bs := by
